@@ -161,6 +161,9 @@ def rule_family(level=1):
         # a thin layer of pairs so that context rules are reached in the quick tier as well
         inner_ops = ["ADD", "SUB", "MUL", "DIV", "AND", "OR", "XOR", "SHL", "SHR", "LT", "GT", "EQ", "ISZERO", "NOT",
                      "EXP"]
+        # the signed/remaining operators share branches with their unsigned twins in the rule code (GT/SGT, LT/SLT,
+        # DIV/SDIV, SHR/SAR, MOD/SMOD): they get the same inner positions, under the outer operators below
+        inner_ops += [o for o in BINARY if o not in inner_ops]
         outer_ops = ["ISZERO", "NOT", "AND", "OR", "MUL", "DIV", "SHL", "SHR", "EQ", "SUB", "ADD", "EXP", "XOR"]
         leaves2 = [X, Y, C(0), C(1), C(MASK)]
     else:
@@ -263,6 +266,39 @@ def consume_family():
         if t not in seen:
             seen.add(t)
             yield b
+
+
+def pseudo_family():
+    """Pseudo pushes with operand spellings on both sides of every reading (decimal/hexadecimal, one/two digits,
+    letters) inside blocks the optimizer regenerates, alone and in pairs of different kinds."""
+    kinds = ["PUSH [$]", "PUSH #[$]", "PUSH data", "PUSHIMMUTABLE", "PUSHLIB", "PUSH [tag]"]
+    vals = ["0", "9", "0a", "10", "12", "a1", "ff", "100", "1f"]
+    seen = set()
+    out = []
+
+    def emit(b):
+        t = tuple(b)
+        if t not in seen:
+            seen.add(t)
+            out.append(b)
+
+    for k in kinds:
+        for v in vals:
+            if k == "PUSH [tag]" and not v.isdigit():
+                continue
+            p = I(k, v)
+            emit([p, I("SWAP1"), I("POP")])
+            emit([P(0), p, I("ADD")])
+            emit([p, I("DUP1"), I("POP"), I("SWAP1"), I("POP")])
+            emit([P(1), P(1), I("ADD"), p, I("MSTORE")])
+            emit([p, p, I("SWAP1"), I("POP")])
+    for k1, k2 in itertools.permutations(kinds, 2):
+        for v1, v2 in (("0a", "10"), ("10", "0a"), ("12", "c"), ("a", "10"), ("10", "16")):
+            if "[tag]" in k1 + k2 and not (v1.isdigit() and v2.isdigit()):
+                continue
+            emit([I(k1, v1), I(k2, v2), I("SWAP1"), I("SWAP2"), I("POP")])
+            emit([P(0), I(k1, v1), I("ADD"), I(k2, v2), I("SWAP1")])
+    return out
 
 
 ADDR9 = [C(0), C(1), C(31), C(32), C(33), X, ("ADD", C(1), X), ("ADD", C(32), X), Y]
